@@ -25,14 +25,15 @@ func TestAAAWitnesses(t *testing.T) { vk.TestWitnesses(t, property) }
 func TestReplay(t *testing.T)       { vk.TestReplay(t) }
 
 type Req struct {
-	Method string
-	Path   string
-	V      string `json:",omitempty"` // query value that is part of the key with the custom key generator
-	CC     string `json:",omitempty"` // request Cache-Control: "" | no-cache | no-store
-	Inv    bool   `json:",omitempty"` // CacheInvalidator returns true for this request
-	TTL0   bool   `json:",omitempty"` // ExpirationGenerator returns 0 (expired at once) instead of 1h
-	Tick   bool   `json:",omitempty"` // no request: ten minutes pass for the storage (its TTLs run on the virtual clock); every entry was stored for an hour, so nothing may change
-	Skip   bool   `json:",omitempty"` // Config.Next returns true for this request
+	Method  string
+	Path    string
+	V       string `json:",omitempty"` // query value that is part of the key with the custom key generator
+	CC      string `json:",omitempty"` // request Cache-Control: "" | no-cache | no-store
+	Inv     bool   `json:",omitempty"` // CacheInvalidator returns true for this request
+	TTL0    bool   `json:",omitempty"` // ExpirationGenerator returns 0 (expired at once) instead of 1h
+	Tick    bool   `json:",omitempty"` // no request: ten minutes pass for the storage (its TTLs run on the virtual clock); every entry was stored for an hour, so nothing may change
+	Skip    bool   `json:",omitempty"` // Config.Next returns true for this request
+	Restart bool   `json:",omitempty"` // no request: the process restarts - a new instance of the middleware on the same external storage (memory: ignored)
 }
 
 type Case struct {
@@ -90,15 +91,17 @@ func respSig(r *fasthttp.RequestCtx, withHdr bool) string {
 var cacheable = map[int]bool{200: true, 203: true, 204: true, 206: true, 300: true, 301: true, 404: true, 405: true, 410: true, 414: true, 418: true, 501: true}
 
 type world struct {
-	conn   *fasthttp.RequestCtx
-	c      Case
-	app    *fiber.App
-	st     *vk.Storage
-	sched  *vk.Sched
-	ticks  int
-	mu     sync.Mutex
-	serial int
-	execs  map[string][]*origin // goroutine-safe log of origin executions per request uri
+	cfg       cache.Config
+	restarted bool
+	conn      *fasthttp.RequestCtx
+	c         Case
+	app       *fiber.App
+	st        *vk.Storage
+	sched     *vk.Sched
+	ticks     int
+	mu        sync.Mutex
+	serial    int
+	execs     map[string][]*origin // goroutine-safe log of origin executions per request uri
 }
 
 func (w *world) uri(r Req) string {
@@ -148,6 +151,15 @@ func newWorld(c Case) *world {
 		w.st.Retain = c.Store == "vk-retain"
 		cfg.Storage = w.st
 	}
+	w.cfg = cfg
+	w.build()
+	return w
+}
+
+// build creates the application with a new instance of the middleware (the process starts, or restarts: an external
+// storage keeps what earlier instances stored in it).
+func (w *world) build() {
+	c, cfg := w.c, w.cfg
 	w.app = fiber.New()
 	if c.Upstream {
 		// a middleware in front of the cache that sets a response header on every request (helmet, cors, ...)
@@ -185,7 +197,6 @@ func newWorld(c Case) *world {
 		return err
 	})
 	w.app.Handler()
-	return w
 }
 
 func (w *world) do(r Req) *fasthttp.RequestCtx {
@@ -260,6 +271,13 @@ type model struct {
 }
 
 func (m *model) seqStep(w *world, r Req, i int, phase string) string {
+	if r.Restart {
+		if w.st != nil {
+			w.build()
+			w.restarted = true
+		}
+		return ""
+	}
 	if r.Tick {
 		if w.ticks < 5 { // (at most 50 minutes in all)
 			w.ticks++
@@ -359,7 +377,8 @@ func check(c Case) vk.Verdict {
 	m := &model{live: map[string][]*origin{}}
 	v := vk.Verdict{Classes: []string{"store:" + c.Store}}
 	bound := func(where string) string {
-		if c.Store != "memory" && c.MaxBytes > 0 {
+		// (after a restart the new instance counts from zero: what earlier instances left in the storage is not its account)
+		if c.Store != "memory" && c.MaxBytes > 0 && !w.restarted {
 			if b := w.bytesHeld(); uint(b) > c.MaxBytes {
 				return fmt.Sprintf("%s: %d body bytes held in the storage, MaxBytes is %d (keys %v)", where, b, c.MaxBytes, w.st.Keys())
 			}
@@ -531,6 +550,9 @@ func genReq(t *rapid.T, c Case) Req {
 	if rapid.IntRange(0, 9).Draw(t, "tick") == 0 {
 		r = Req{Tick: true}
 	}
+	if c.Store != "memory" && rapid.IntRange(0, 11).Draw(t, "restart") == 0 {
+		r = Req{Restart: true}
+	}
 	return r
 }
 
@@ -600,7 +622,7 @@ func genCase(t *rapid.T, conc bool) Case {
 		ng := rapid.IntRange(2, 4).Draw(t, "ng")
 		for i := 0; i < ng; i++ {
 			r := genReq(t, c)
-			if r.Tick {
+			if r.Tick || r.Restart {
 				r = Req{Method: "GET", Path: "/a", V: "1"} // (time passes between requests, not inside the concurrent phase)
 			}
 			if rapid.Bool().Draw(t, "samekey") && len(c.Conc) > 0 {
